@@ -349,6 +349,7 @@ void Exec::step(const Step &s) {
     if (!readonly && t != "bus" && t != "check") return;
   }
   if (t == "connect") { connect_step(s); return; }
+  if (t == "uniq") { w.set_unique_counter((int)s.N(0, 1), (int)s.N(1, 0)); return; }   // unique names in a prefix relation (:1.1, :1.10) with few connections
   if (t == "check") { check_point(false); return; }
   if (t == "bus") {
     int iters = (int)s.N(0, 1);
